@@ -102,6 +102,7 @@ func main() {
 	if *worker {
 		w := mon.NewW(p.ID, *tier, seed, *shard, *nshards, *out)
 		w.Race = *shard >= *nplain
+		w.NPlain = *nplain
 		pi := mon.Guard(func() { p.Run(w) })
 		if pi != nil {
 			if pi.InRepo {
